@@ -86,6 +86,9 @@ pub broadcast axiom fn axiom_default_u32() ensures #[trigger] default_of::<u32>(
 pub assume_specification<T: Default, E>[ Result::<T, E>::unwrap_or_default ](res: Result<T, E>) -> (r: T)
     ensures res matches Ok(t) ==> r == t, res is Err ==> r == default_of::<T>();
 pub assume_specification<T>[<Option<T> as From<T>>::from](t: T) -> (r: Option<T>) ensures r == Some(t);
+// A-core-45: bool::then_some(t) is Some(t) exactly for true
+pub assume_specification<T>[ bool::then_some ](b: bool, t: T) -> (r: Option<T>)
+    ensures r == (if b { Some(t) } else { None::<T> });
 // A-core-14: Option::replace stores the value and returns the old one
 pub assume_specification<T>[ Option::<T>::replace ](o: &mut Option<T>, v: T) -> (r: Option<T>)
     ensures r == *old(o), *final(o) == Some(v);
